@@ -13,6 +13,7 @@ import (
 	"strings"
 	"time"
 
+	"github.com/gorilla/websocket"
 	lime "github.com/takenet/lime-go"
 	"verif/gosim/harness"
 	"verif/gosim/rt"
@@ -46,7 +47,7 @@ type st struct {
 	refused     int // dials refused during the outage
 }
 
-func body(faultSet []string, useTLS bool) func(x *harness.X) {
+func body(faultSet []string, useTLS, useWS bool) func(x *harness.X) {
 	return func(x *harness.X) {
 		lib.Reset()
 		s := &st{tapped: map[string]int{}}
@@ -59,6 +60,9 @@ func body(faultSet []string, useTLS bool) func(x *harness.X) {
 		if useTLS {
 			srvTCP = &lime.TCPConfig{TLSConfig: lib.TLSServerConfig()}
 			s.noTap = true // the wire carries TLS records: message ids are not visible to the tap
+		}
+		if useWS {
+			s.noTap = true // client frames are masked: message ids are not visible to the tap
 		}
 		pl := lib.NewPipeListener(srvTCP, 64<<10, 4)
 		var chans []*lime.ServerChannel
@@ -107,6 +111,11 @@ func body(faultSet []string, useTLS bool) func(x *harness.X) {
 			}
 			n := s.dials
 			s.dials++
+			if useWS {
+				t, _ := pl.DialWS()
+				x.Obs("client dials (%d)", s.dials)
+				return t, nil
+			}
 			conn := pl.Dial()
 			conn.ResetAfterPeerClose = useTLS // writing to a vanished peer is a reset (the close_notify of the TLS layer fails)
 			conn.Tap = func(b []byte) {
@@ -160,14 +169,28 @@ func body(faultSet []string, useTLS bool) func(x *harness.X) {
 			case "half-close":
 				_ = sconn.CloseWrite()
 			case "garbage":
-				if useTLS {
+				if useWS {
+					// a text frame that is no JSON at all
+					_ = pl.WSServers[len(pl.WSServers)-1].WriteMessage(websocket.TextMessage, []byte("}{"))
+				} else if useTLS {
 					// a complete, bogus application-data record: fails authentication at once
 					_, _ = sconn.Write([]byte{0x17, 3, 3, 0, 5, 'h', 'e', 'l', 'l', 'o'})
 				} else {
 					_, _ = sconn.Write([]byte("}{\n"))
 				}
 			case "non-envelope":
-				_, _ = sconn.Write([]byte(`{"foo":1}` + "\n"))
+				if useWS {
+					_ = pl.WSServers[len(pl.WSServers)-1].WriteMessage(websocket.TextMessage, []byte(`{"foo":1}`))
+				} else {
+					_, _ = sconn.Write([]byte(`{"foo":1}` + "\n"))
+				}
+			case "binary-frame":
+				_ = pl.WSServers[len(pl.WSServers)-1].WriteMessage(websocket.BinaryMessage, []byte{0, 1, 2, 3})
+			case "close-frame":
+				_ = pl.WSServers[len(pl.WSServers)-1].WriteMessage(websocket.CloseMessage, websocket.FormatCloseMessage(websocket.CloseGoingAway, "bye"))
+			case "raw-bytes":
+				// bytes that are no WebSocket frame (reserved bits set)
+				_, _ = sconn.Write([]byte{0xff, 0xff, 0xff, 0xff})
 			case "oversized":
 				_, _ = sconn.Write([]byte(`{"id":"big","type":"text/plain","content":"` + strings.Repeat("A", 700) + `"}` + "\n"))
 			}
@@ -309,16 +332,17 @@ func contains(l []string, s string) bool {
 func main() {
 	opt := rt.Options{NoExplore: true, Horizon: 400 * time.Second, MaxSteps: 60000, SpinLimit: 8000, BoundAll: true, NoTimerDeviation: true}
 	mk := func(name string, fs []string, q, t int) harness.Scenario {
-		return harness.Scenario{Name: name, Opt: opt, Quick: q, Thorough: t, Prune: false, Body: body(fs, false), Final: final}
+		return harness.Scenario{Name: name, Opt: opt, Quick: q, Thorough: t, Prune: false, Body: body(fs, false, false), Final: final}
 	}
 	harness.Main(harness.Check{
 		Property: "C19",
 		Level:    "model_checking",
 		Rule:     "fault kind {server finish, server fail, abrupt close, connection reset, half-close, undecodable bytes, non-envelope JSON, envelope above twice the read limit} x moment {idle, concurrent with an application send} x {server reachable at once, dials refused for 2s during which an application send with a 300ms deadline times out} as data choices, the injection placed by the bounded scheduler (delay bounding); then one more application send and one server-to-client message on the newest session; real Client and Server over the real TCP transport on per-dial virtual pipes; distinct outcome = distinct observation log",
-		Assume:   []string{"state pruning off (Client.channel is read outside its mutex)", "in-process and WebSocket clients are not explored here; the tls/faults scenario runs the same over real TLS (negotiated per dial), where the wire tap cannot see message ids, so the written-to-a-live-session clause is not evaluated there; it runs the default schedule only (crypto/tls holds native mutexes across its I/O, so preempting inside it could block the whole simulation natively) with writes to a vanished peer failing as a reset", "a spinning goroutine is recognised by more than 8000 visible operations being executed while the virtual clock stands still (a whole handshake takes about 1500)"},
+		Assume:   []string{"state pruning off (Client.channel is read outside its mutex)", "in-process clients are not explored here; the ws/faults scenario runs the client over WebSocket connections (gorilla, real opening handshake per dial over a virtual pipe; faults there also include a binary frame, a close frame and bytes that are no frame), where client frames are masked and the written-to-a-live-session clause is not evaluated; the tls/faults scenario runs the same over real TLS (negotiated per dial), where the wire tap cannot see message ids, so the written-to-a-live-session clause is not evaluated there; it runs the default schedule only (crypto/tls holds native mutexes across its I/O, so preempting inside it could block the whole simulation natively) with writes to a vanished peer failing as a reset", "a spinning goroutine is recognised by more than 8000 visible operations being executed while the virtual clock stands still (a whole handshake takes about 1500)"},
 		Scenarios: []harness.Scenario{
 			mk("all-faults", faults, 1, 2),
-			{Name: "tls/faults", Opt: opt, Quick: 0, Thorough: 0, Prune: false, Body: body([]string{"server-finish", "server-fail", "abrupt-close", "reset", "garbage"}, true), Final: final},
+			{Name: "tls/faults", Opt: opt, Quick: 0, Thorough: 0, Prune: false, Body: body([]string{"server-finish", "server-fail", "abrupt-close", "reset", "garbage"}, true, false), Final: final},
+			{Name: "ws/faults", Opt: opt, Quick: 1, Thorough: 2, Prune: false, Body: body([]string{"server-finish", "server-fail", "abrupt-close", "reset", "half-close", "garbage", "non-envelope", "binary-frame", "close-frame", "raw-bytes"}, false, true), Final: final},
 		},
 	})
 }
